@@ -259,6 +259,9 @@ func getLSAsv2(num uint32, data []byte) ([]LSA, error) {
 	var i uint32 = 0
 	var offset uint32 = 0
 	for ; i < num; i++ {
+		if len(data) < int(offset)+20 {
+			return nil, fmt.Errorf("Link State header too short")
+		}
 		lstype := uint16(data[offset+3])
 		lsalength := binary.BigEndian.Uint16(data[offset+18 : offset+20])
 		content, err := extractLSAInformation(lstype, lsalength, data[offset:])
@@ -455,6 +458,9 @@ func getLSAs(num uint32, data []byte) ([]LSA, error) {
 	var offset uint32 = 0
 	for ; i < num; i++ {
 		var content interface{}
+		if len(data) < int(offset)+20 {
+			return nil, fmt.Errorf("Link State header too short")
+		}
 		lstype := binary.BigEndian.Uint16(data[offset+2 : offset+4])
 		lsalength := binary.BigEndian.Uint16(data[offset+18 : offset+20])
 
